@@ -51,6 +51,10 @@ pub fn mul_redc<const N: usize>(a: [u64; N], b: [u64; N], modulus: [u64; N], inv
         result[N - 1] = value;
         if modulus[N - 1] >= 0x7fff_ffff_ffff_ffff {
             carry = next_carry;
+            #[cfg(recmo_uint_verif)]
+            if carry {
+                crate::verif_hooks::hit(crate::verif_hooks::C::REDC_MUL_CARRY);
+            }
         } else {
             debug_assert!(!next_carry);
         }
@@ -106,6 +110,18 @@ pub fn square_redc<const N: usize>(a: [u64; N], modulus: [u64; N], inv: u64) -> 
 
             // Note carry_outer can be {0, 1, 2}.
             carry_outer = (wide >> 64) as u64;
+            #[cfg(recmo_uint_verif)]
+            {
+                if carry_outer == 1 {
+                    crate::verif_hooks::hit(crate::verif_hooks::C::REDC_SQ_OUTER1);
+                }
+                if carry_outer == 2 {
+                    crate::verif_hooks::hit(crate::verif_hooks::C::REDC_SQ_OUTER2);
+                }
+                if carry_hi {
+                    crate::verif_hooks::hit(crate::verif_hooks::C::REDC_SQ_CARRY_HI);
+                }
+            }
             debug_assert!(carry_outer <= 2);
         } else {
             // `carry_outer` and `carry_hi` are always zero.
@@ -127,6 +143,14 @@ pub fn square_redc<const N: usize>(a: [u64; N], modulus: [u64; N], inv: u64) -> 
 #[allow(clippy::needless_bitwise_bool)]
 fn reduce1_carry<const N: usize>(value: [u64; N], modulus: [u64; N], carry: bool) -> [u64; N] {
     let (reduced, borrow) = sub(value, modulus);
+    #[cfg(recmo_uint_verif)]
+    crate::verif_hooks::hit(if carry {
+        crate::verif_hooks::C::REDC_REDUCE_CARRY
+    } else if !borrow {
+        crate::verif_hooks::C::REDC_REDUCE_NOBORROW
+    } else {
+        crate::verif_hooks::C::REDC_REDUCE_NONE
+    });
     // TODO: Ideally this turns into a cmov, which makes the whole mul_redc constant
     // time.
     if carry | !borrow {
